@@ -40,13 +40,13 @@ def run(eng, R):
 
     a, b = idx_expr(rm), idx_expr(fi)
     R.ob("H-sub", "fixed index set", a is not None and a == b and "self.is_fixed(" in (a or ""), eng.where(fi), "removal uses the index set `%s`, re-insertion `%s`" % (a, b))
-    src = " ".join(ast.unparse(rm.node).split())
+    src = common.src_of(rm.node)
     R.ob("H-sub", "_remove_zeroes_for_fixed", "np.delete(np.delete(matrix, _fixed_par_indices, axis=0), _fixed_par_indices, axis=1)" in src, eng.where(rm), "rows and columns of the fixed parameters must both be removed")
-    src = " ".join(ast.unparse(fi.node).split())
+    src = common.src_of(fi.node)
     R.ob("H-sub", "_fill_in_zeroes_for_fixed", "for _id in _fixed_par_indices" in src and "np.insert(np.insert(_mat, _id, 0.0, axis=0), _id, 0.0, axis=1)" in src, eng.where(fi),
          "zero rows and columns must be inserted at the index of each fixed parameter (ascending order)")
     hi = get_func(p, "MinimizerBase", "hessian_inv.fget") if False else MB.find_prop("hessian_inv").fget
-    src = " ".join(ast.unparse(hi.node).split())
+    src = common.src_of(hi.node)
     R.ob("H-sub", "hessian_inv:sub-block", "_subhessian = self._remove_zeroes_for_fixed(_hessian)" in src and "_subhessian_inv = np.linalg.inv(_subhessian)" in src
          and "self._hessian_inv = self._fill_in_zeroes_for_fixed(_subhessian_inv)" in src, eng.where(hi), "the Hessian must be inverted on the free sub-block and zero-filled for fixed parameters")
     check(eng, R, "H-sub", "MinimizerBase", "hessian_inv", "assign", "0.5 * (self._fill_in_zeroes_for_fixed(linalg.inv(self._remove_zeroes_for_fixed(self.hessian))) + self._fill_in_zeroes_for_fixed(linalg.inv(self._remove_zeroes_for_fixed(self.hessian))).T)",
@@ -56,7 +56,7 @@ def run(eng, R):
     R.ob("H-sub", "hessian_inv:symmetrise", "0.5 * (self._hessian_inv + self._hessian_inv.T)" in symtxt, eng.where(hi), "the inverse Hessian must be symmetrised as (H + H^T)/2 (found %s)" % symtxt)
     sm = p.find_class("MinimizerScipyOptimize")
     mn = p.method(sm, "minimize")
-    src = " ".join(ast.unparse(mn.node).split())
+    src = common.src_of(mn.node)
     R.ob("H-sub", "scipy minimize:fixed re-insertion", "_dyn_and_fixed_args[0, 0:-_n_fixed_parameters] = self._opt_result.x" in src and "self._par_val = _dyn_and_fixed_args[_par_fixed_indices, _position_indices]" in src
          and "_selected_values = _dyn_and_fixed_args[_par_fixed_indices, _position_indices]" in src, eng.where(mn),
          "the scipy adapter must unpack the optimiser's free-parameter vector with the same (fixed flag, position) index arrays it used to pack the objective's arguments")
@@ -65,7 +65,7 @@ def run(eng, R):
     check(eng, R, "H-cor", "CovMat", "cor_mat", "assign", "self._mat / outer(sqrt(diag(self._mat)), sqrt(diag(self._mat)))", target="self._cor_mat",
           what="correlation matrix must be covariance / outer(sigma, sigma)")
     cm = MB.find_prop("cor_mat").fget
-    src = " ".join(ast.unparse(cm.node).split())
+    src = common.src_of(cm.node)
     R.ob("H-cor", "MinimizerBase.cor_mat", "_subcov_mat = self._remove_zeroes_for_fixed(_cov_mat)" in src and "_subcor_mat = CovMat(_subcov_mat).cor_mat" in src and "self._par_cor_mat = self._fill_in_zeroes_for_fixed(_subcor_mat)" in src,
          eng.where(cm), "the parameter correlation matrix must be the normalisation of the covariance on the free sub-block")
     check(eng, R, "H-cor", "MinimizerScipyOptimize", "minimize", "assign", "sqrt(diag(self.cov_mat))", target="self._par_err", what="symmetric parameter errors must be sqrt(diag(covariance))")
@@ -74,7 +74,7 @@ def run(eng, R):
     check(eng, R, "H-prof", "MinimizerBase", "_calculate_asymmetric_parameter_errors", "assign", "self.function_value + 1.0", target="_target_chi_2",
           what="asymmetric errors are where the profile has risen by exactly 1")
     ap = p.method(MB, "_calculate_asymmetric_parameter_errors")
-    src = " ".join(ast.unparse(ap.node).split())
+    src = common.src_of(ap.node)
     R.ob("H-prof", "asymmetric errors:displacement", "_asymm_par_errs[_par_index, 0] = _cut_dn - _par_min" in src and "_asymm_par_errs[_par_index, 1] = _cut_up - _par_min" in src
          and "self._find_cost_cut(_par_name, _par_min - _par_err, _target_chi_2, _min_parameters)" in src and "self._find_cost_cut(_par_name, _par_min + _par_err, _target_chi_2, _min_parameters)" in src,
          eng.where(ap), "asymmetric errors must be the displacements of the lower / upper cost cut from the optimum")
@@ -82,7 +82,7 @@ def run(eng, R):
     nested = [n for n in fc.node.body if isinstance(n, ast.FunctionDef)][0]
     rets = [" ".join(ast.unparse(r.value).split()) for r in ast.walk(nested) if isinstance(r, ast.Return)]
     R.ob("H-prof", "_find_cost_cut:profile function", rets == ["self.function_value - target_cost"], eng.where(fc), "the root function of the cost cut must be cost - target (found %s)" % rets)
-    body = " ".join(ast.unparse(nested).split())
+    body = common.src_of(nested)
     R.ob("H-prof", "_find_cost_cut:pin and re-minimise", "self.set_several(self.parameter_names, min_parameters)" in body and "self.set(parameter_name, parameter_value)" in body and "self.fix(parameter_name)" in body and "self.minimize()" in body,
          eng.where(fc), "each profile point must start from the optimum, pin the profiled parameter and re-minimise over the others")
     check(eng, R, "H-prof", "MinimizerScipyOptimize", "_contour_heuristic_grid", "assign", "min(self.function_value, _grid[_min_coords, _min_coords]) + sigma ** 2", target="_contour_fun",
@@ -96,7 +96,7 @@ def run(eng, R):
     # ---- error band
     XF = p.find_class("XYFit")
     eb = p.method(XF, "error_band")
-    src = " ".join(ast.unparse(eb.node).split())
+    src = common.src_of(eb.node)
     R.ob("H-band", "XYFit.error_band:quadratic form", "_band_y[_x_idx] = _p_res.dot(_cut_parameter_cov_mat).dot(_p_res)" in src and "return np.sqrt(_band_y)" in src, eng.where(eb),
          "the band must be sqrt(p^T C p) per evaluation point")
     R.ob("H-band", "XYFit.error_band:mask", "_cut_parameter_cov_mat = self.parameter_cov_mat[_not_pars_fixed][:, _not_pars_fixed]" in src and "_p_res = _f_deriv_by_params[_x_idx, _not_pars_fixed]" in src
@@ -105,7 +105,7 @@ def run(eng, R):
     R.ob("H-band", "XYFit.error_band:derivatives", "_f_deriv_by_params = self.eval_model_function_derivative_by_parameters(x=x)" in src and "_f_deriv_by_params = _f_deriv_by_params.T" in src, eng.where(eb),
          "the band must use the model's parameter derivatives at the requested x (transposed to [x][par])")
     dp = p.method(XF, "eval_model_function_derivative_by_parameters")
-    src = " ".join(ast.unparse(dp.node).split())
+    src = common.src_of(dp.node)
     R.ob("H-band", "XYFit.eval_model_function_derivative_by_parameters", "self._param_model.parameters = self.parameter_values" in src and "par_dx = 0.01 * self.parameter_errors" in src.replace("1e-2", "0.01")
          and "self._param_model.eval_model_function_derivative_by_parameters(x=x, model_parameters=model_parameters, par_dx=par_dx)" in src, eng.where(dp),
          "derivatives must be taken at the current parameters with steps tied to the parameter errors")
